@@ -6,17 +6,18 @@ from harness import exec_props as X
 # entries out of the answer or report None for them ("faulty": 25% absent, 12% None)
 BIAS = {"qerr_p": 0.07, "qnojobs_p": 0.16, "profiles": ["faulty", "faulty", "faulty", "mixed", "timeout", "hw"],
         "cancel_p": 0.05, "max_polls": 12, "fair_after": [None, None, 4, 8]}
-# exhaustive tiny scope: at EVERY poll the query code is OK / NOJOBS / ERROR, a cancel request may
-# arrive, and every queried job is absent / None / PENDING / RUNNING / FINISHED / FAILED / TIMEDOUT
-TINY = {"depth_quick": 3, "depth_thorough": 3, "graphs_quick": 3,
-        "cfgs": [{"throttle": 0, "attempts": 1, "dry": False}, {"throttle": 1, "attempts": 2, "dry": False}],
-        "enum": {"q": True, "cancel": True, "subs": False,
-                 "kinds": ["absent", None, "PENDING", "RUNNING", "FINISHED", "FAILED", "TIMEDOUT"]},
+# exhaustive tiny scope: at EVERY poll the query code is OK / NOJOBS / ERROR and every queried job
+# is absent / None / PENDING (non-terminal, not RUNNING) / RUNNING / FINISHED / FAILED [/ TIMEDOUT]
+_CFGS = [{"throttle": 0, "attempts": 1, "dry": False}, {"throttle": 1, "attempts": 2, "dry": False}]
+_KINDS = ["absent", None, "PENDING", "RUNNING", "FINISHED", "FAILED"]
+# quick: the first three tiny graphs, depth 3, a cancel request may arrive at any poll
+# (so that fault + simultaneous cancel is enumerated)
+TINY = {"depth_quick": 3, "depth_thorough": 3, "graphs_quick": 3, "cfgs": _CFGS,
+        "enum": {"q": True, "cancel": True, "subs": False, "kinds": _KINDS},
         "limit_quick": 12000, "limit_thorough": 200000}
-# the thorough tier covers all six tiny graphs; to stay inside its budget it keeps the
-# cancel request out of the enumeration (cancel + fault combinations are in the quick scope
-# and in the random stream)
-TINY_THOROUGH = dict(TINY, enum=dict(TINY["enum"], cancel=False))
+# thorough: all six tiny graphs, TIMEDOUT (restart path) added to the report kinds; to stay inside
+# the budget the cancel request is left to the quick scope and to the random stream
+TINY_THOROUGH = dict(TINY, enum={"q": True, "cancel": False, "subs": False, "kinds": _KINDS + ["TIMEDOUT"]})
 
 
 def run(ck):
